@@ -714,8 +714,75 @@ func GenLeaf(rng *rand.Rand, f *Frame) *Clause {
 	return nil
 }
 
+// GenRunClause generates a clause whose sub-clauses select contiguous runs of the frame's rows (in frame order):
+// a long first run that does not reach the end, later runs behind it, pass-through clauses (Null) in front, the
+// runs wrapped in And/Not/Or in different ways. Needs the unique id column. Returns nil if the frame is too small.
+func GenRunClause(rng *rand.Rand, f *Frame) *Clause {
+	idc := f.Col(IDCol)
+	n := f.Len()
+	if idc == nil || idc.Kind != KInt || n < 4 {
+		return nil
+	}
+	run := func(a, b int) *Clause {
+		ids := append([]int(nil), idc.I[a:b]...)
+		rng.Shuffle(len(ids), func(i, j int) { ids[i], ids[j] = ids[j], ids[i] })
+		return &Clause{Op: "leaf", Col: IDCol, Cmp: "in", ArgKind: "ints", ListI: ids, Iface: rng.Intn(2) == 0}
+	}
+	wrap := func(c *Clause) *Clause {
+		switch rng.Intn(5) {
+		case 0:
+			return &Clause{Op: "and", Subs: []*Clause{c}}
+		case 1:
+			return &Clause{Op: "not", Subs: []*Clause{{Op: "not", Subs: []*Clause{c}}}}
+		case 2:
+			return &Clause{Op: "and", Subs: []*Clause{{Op: "null"}, c}}
+		case 3:
+			return &Clause{Op: "or", Subs: []*Clause{c}}
+		}
+		return c
+	}
+	// first run: at least half of the rows, starting at or near the beginning, ending before the last row
+	a := rng.Intn(1 + n/8)
+	b := a + n/2 + rng.Intn(n-a-n/2)
+	if b >= n {
+		b = n - 1
+	}
+	if b <= a {
+		return nil
+	}
+	subs := []*Clause{wrap(run(a, b))}
+	for pos, k := b, 1+rng.Intn(3); k > 0 && pos < n; k-- {
+		c := pos + rng.Intn(n-pos)
+		d := c + 1 + rng.Intn(n-c)
+		subs = append(subs, wrap(run(c, d)))
+		pos = d
+	}
+	top := &Clause{Op: "or", Subs: subs}
+	switch rng.Intn(6) {
+	case 0:
+		return &Clause{Op: "and", Subs: []*Clause{{Op: "null"}, top}}
+	case 1:
+		return &Clause{Op: "and", Subs: []*Clause{{Op: "null"}, subs[0].leafOrSelf()}}
+	case 2:
+		return &Clause{Op: "and", Subs: []*Clause{{Op: "or", Subs: []*Clause{{Op: "null"}}}, run(a, b), run(a+(b-a)/2, b)}}
+	}
+	return top
+}
+
+func (c *Clause) leafOrSelf() *Clause {
+	for c.Op != "leaf" && len(c.Subs) > 0 {
+		c = c.Subs[len(c.Subs)-1]
+	}
+	return c
+}
+
 // GenClause generates a random clause tree.
 func GenClause(rng *rand.Rand, f *Frame, depth int) *Clause {
+	if depth >= 2 && rng.Intn(12) == 0 {
+		if rc := GenRunClause(rng, f); rc != nil {
+			return rc
+		}
+	}
 	if depth <= 0 || rng.Intn(3) == 0 {
 		if rng.Intn(40) == 0 {
 			return &Clause{Op: "null"}
